@@ -493,6 +493,7 @@ pub fn gen_random(seed: u64, idx: u64) -> Plan {
             c.steps.push(Step::AwaitResponses { count: nreq, max_ms: 60_000 });
         }
         fit_c2s(&mut c);
+        fit_s2c_echo(&mut c);
         conns.push(c);
     }
     Plan {
